@@ -349,6 +349,14 @@ pub fn structured_program(rng: &mut Rng, o: &SOpts) -> Program {
             items.push(Item::Ins(g.ident()));
             items.push(Item::Label(l));
         }
+        2 => {
+            // a written hlt is the last instruction and a label follows it, reached by a taken jump
+            let l = g.label();
+            items.push(Item::Ins(Ins::J(Jcc::Jmp, l.clone())));
+            items.push(Item::Ins(g.ident()));
+            items.push(Item::Ins(Ins::Simple("hlt")));
+            items.push(Item::Label(l));
+        }
         _ => {}
     }
     // "mnone" uses: fix argument list to the dummy `_`
